@@ -11,7 +11,7 @@ from .srvfam import BODIES, METAS, STATUSES, ConnFamily
 ID = "C01"
 READY = True
 LEAN_TARGETS = ["NauyacaVerif.Props.C01"]
-THEOREMS = ['NauyacaVerif.C01.render_wf', 'NauyacaVerif.C01.trace_shape', 'NauyacaVerif.C01.nothing_after_close', 'NauyacaVerif.C01.trace_progress', 'NauyacaVerif.C01.line_decides', 'NauyacaVerif.C01.lost_silent', 'NauyacaVerif.C01.fixedMetas_clean', 'NauyacaVerif.C01.pump_trace_shape', 'NauyacaVerif.C01.pump_silent_before_handshake', 'NauyacaVerif.C01.maxMeta_tie', 'NauyacaVerif.C01.writeChunk_tie', 'NauyacaVerif.C01.flow_pieces', 'NauyacaVerif.C01.flow_writes_prefix', 'NauyacaVerif.C01.flow_closed_complete', 'NauyacaVerif.C01.flow_quiet', 'NauyacaVerif.C01.flow_resume_finishes', 'NauyacaVerif.C01.maxRequest_tie']
+THEOREMS = ['NauyacaVerif.C01.render_wf', 'NauyacaVerif.C01.trace_shape', 'NauyacaVerif.C01.nothing_after_close', 'NauyacaVerif.C01.trace_progress', 'NauyacaVerif.C01.line_decides', 'NauyacaVerif.C01.lost_silent', 'NauyacaVerif.C01.fixedMetas_clean', 'NauyacaVerif.C01.pump_trace_shape', 'NauyacaVerif.C01.pump_silent_before_handshake', 'NauyacaVerif.C01.maxMeta_tie', 'NauyacaVerif.C01.writeChunk_tie', 'NauyacaVerif.C01.flow_pieces', 'NauyacaVerif.C01.flow_writes_prefix', 'NauyacaVerif.C01.flow_closed_complete', 'NauyacaVerif.C01.flow_quiet', 'NauyacaVerif.C01.flow_resume_finishes', 'NauyacaVerif.C01.maxRequest_tie', 'NauyacaVerif.C01.sys_silent_before_decision', 'NauyacaVerif.C01.sys_decided_wellformed', 'NauyacaVerif.C01.sys_written_prefix', 'NauyacaVerif.C01.sys_trace_shape', 'NauyacaVerif.C01.sys_closed_complete', 'NauyacaVerif.C01.sys_lost_quiet', 'NauyacaVerif.C01.sys_resume_completes']
 EXTRACT = ["maxMeta", "maxRequest", "serverWriters", "writeChunk"]
 EXTRACT_EXPECT = {"serverWriters": ["_pump_response"]}  # every transport.write of the server protocol sits in one function
 LEVEL_TEXT = "Proved for every configuration and EVERY event list (all orderings of reads, timer, middleware/handler/upload completions of any outcome, disconnect): the output trace is empty or one well-formed response (two digits 10-69, space, meta without CR/LF <= 1024 bytes, CRLF, body only with 2x; for every status/meta/body incl. lone surrogates) followed by close, nothing after close, nothing after a disconnect, a decided request with no pending task IS answered, a complete line / >1024 bytes always decides (for every segmentation); lifted to the PyOpenSSL pump model; and for the write pump under flow control (M-Flow: responses are handed to the transport in pieces, pause/resume at any point): writes are always an in-order prefix of the pieces, close only after all of them, nothing while paused. The correspondence compares the real GeminiServerProtocol byte-for-byte and event-by-event (when the response is written) with the model, and the real pump over memory-BIO TLS. Partial: the stdlib TLS backend is asyncio's transport (identity transport in the model); texts of exception-derived metas are only checked for well-formedness."
@@ -252,6 +252,111 @@ class Flow(Family):
         return f"pieces{len([a for a in obs['acts'] if a != 'close'])}|closed{int('close' in obs['acts'])}|evs{min(len(case['evs']), 6)}"
 
 
+class Sys(Family):
+    """the composed machine M-Sys: reads, middleware, handlers, the timer AND a transport that pauses and resumes writing, all in
+    one event list against the real `GeminiServerProtocol`: whatever the order, the bytes that reach the transport are a prefix
+    of the one response that was decided, and the connection is closed only when all of it was written"""
+
+    name = "sys"
+    quick_n = 1500
+    thorough_n = 40000
+
+    def gen(self, rng: random.Random, n: int):
+        from .srvfam import gen_case, gen_orderly, gen_resp
+
+        def big(r):
+            return [r[0], r[1], ["z", rng.choice([0, 1, 65535, 65536, 65537, 131072, 200000, 300000])]] if 20 <= r[0] <= 29 and rng.random() < 0.6 else r
+
+        def happy():
+            # a valid request (possibly split), admitted, answered with a body of several pieces
+            line = rng.choice([b"gemini://h/x\r\n", b"gemini://h/a/b?q=1\r\n", b"titan://h/f;size=3\r\nabc", b"titan://h/f;size=0\r\n"])
+            cut = rng.randint(1, len(line) - 1)
+            data = [line] if rng.random() < 0.5 else [line[:cut], line[cut:]]
+            mw = rng.random() < 0.4
+            titan = line.startswith(b"titan")
+            resp = [rng.choice([20, 20, 20, 21, 51]), "application/octet-stream", ["z", rng.choice([1, 65536, 65537, 131072, 200000, 262144, 300000, 400000])]]
+            hk = rng.choice(["s", "a"])
+            evs = [["d", x.hex()] for x in data]
+            if mw:
+                evs.append(rng.choice([["ma"], ["ma"], ["ma"], ["md", "53 no\r\n"]]))
+            if titan:
+                evs.append(["ua", resp])
+            elif hk == "a":
+                evs.append(["ha", resp])
+            return {"mw": mw, "up": titan or rng.random() < 0.3, "handler": ["s", resp] if hk == "s" else ["a"], "evs": evs}
+
+        for i in range(n):
+            c = happy() if i % 5 < 3 else gen_orderly(rng) if i % 5 == 3 else gen_case(rng)
+            if c["handler"][0] == "s":
+                c["handler"] = ["s", big(c["handler"][1])]
+            evs = [[e[0], big(e[1])] if e[0] in ("ha", "ua") else e for e in c["evs"]]
+            # the transport's side of the story, anywhere in the event list
+            for _ in range(rng.randint(1, 5)):
+                r = rng.random()
+                ev = ["lim", rng.randint(0, 3)] if r < 0.45 else ["pw"] if r < 0.6 else ["rw"]
+                evs.insert(rng.randint(0, len(evs)), ev)
+            if rng.random() < 0.15:
+                evs.insert(rng.randint(0, len(evs)), rng.choice([["l"], ["tick", 241], ["tick", 100]]))
+            evs += [["rw"]] * rng.choice([0, 1, 2, 6])
+            c["evs"] = evs
+            c["eof"] = rng.random() < 0.5
+            yield c
+
+    def impl(self, case):
+        from .srvfam import get_loop
+
+        loop = get_loop()
+        return loop.run_until_complete(sim.run_conn(loop, case))
+
+    def model(self, case):
+        return sim.enc_case(case, verb="sys")
+
+    def expect(self, case, out):
+        assert out.startswith("ok "), out
+        left, _, right = out[3:].partition(" | ")
+        dec, _, rest = right.partition(" h=")
+        kv = dict(x.split("=", 1) for x in ("h=" + rest).split())
+        return {"acts": [x for x in left.strip().split(",") if x], "decided": dec[len("decided="):].split(), "h": int(kv["h"]), "u": int(kv["u"]), "m": int(kv["m"]),
+                "paused": kv["paused"] == "true"}
+
+    def same(self, exp, obs):
+        got = [("close" if a[0] == "close" else f"w{len(a[1]) // 2}") for a in obs["acts"]]
+        want = exp["acts"]
+        if "w~" in want:        # the text of the message comes from a Python exception: one write, then the close
+            ok = len(got) == len(want) and all(g == w or (w == "w~" and g.startswith("w")) for g, w in zip(got, want))
+        else:
+            ok = got == want
+        if ok and not any(t.startswith("~") or t.startswith("W") for t in exp["decided"]):
+            raw = b"".join(bytes.fromhex(a[1]) for a in obs["acts"] if a[0] == "w")
+            full = b"".join(bytes.fromhex(t[2:]) for t in exp["decided"] if t.startswith("w:") and t != "w:-")
+            ok = full.startswith(raw)
+        return ok and exp["h"] == obs["h"] and exp["u"] == obs["u"] and exp["m"] == obs["m"] and obs["dropped"] == 0 and not obs["exc"]
+
+    def oracle(self, case, obs):
+        acts = obs["acts"]
+        raw = b"".join(bytes.fromhex(a[1]) for a in acts if a[0] == "w")
+        if ["close"] in acts:
+            ok, what = sim.wellformed_trace(acts)
+            if not ok:
+                return ("malformed-response" if acts[-1] == ["close"] and acts.count(["close"]) == 1 else "bytes-after-close", what)
+        elif raw:
+            i = raw.find(b"\r\n")
+            if i >= 0 and sim.HEADER_RE.match(raw) is None:
+                return ("malformed-response", f"header written so far is not well-formed: {raw[:60]!r}")
+            if not obs["lost"] and not obs["paused_end"] and not obs["pending"]:
+                return ("never-closed", f"{len(raw)} response bytes written, transport writable, peer connected, nothing pending, but the connection was not closed")
+        if obs["dropped"]:
+            return ("bytes-after-close", f"{obs['dropped']} writes after the close")
+        return ConnFamily.oracle_once(case, obs)
+
+    def key(self, case, obs):
+        n = len([a for a in obs["acts"] if a[0] == "w"])
+        return f"w{min(n, 6)}|closed{int(['close'] in obs['acts'])}|h{obs['h']}u{obs['u']}m{obs['m']}|{'lost' if obs['lost'] else ''}|paused{int(obs['paused_end'])}"
+
+    def shrink(self, case, bad):
+        return ConnFamily.shrink(self, case, bad)
+
+
 class LiveTail(Family):
     """The real `start_server` (stdlib TLS transport) serving a file small enough that the whole response is handed to the
     transport at once, to a client that reads 32 KiB and then pauses for 31 s of server time: close() has been called, the
@@ -295,4 +400,4 @@ class LiveTail(Family):
         return self._live.key(case, obs)
 
 
-FAMILIES = [Events(), Render(), Pump(), Content(), Flow(), LiveTail()]
+FAMILIES = [Events(), Render(), Pump(), Content(), Flow(), Sys(), LiveTail()]
